@@ -23,6 +23,7 @@ import (
 	"strconv"
 	"strings"
 	"sync"
+	"sync/atomic"
 	"time"
 
 	"github.com/getkin/kin-openapi/openapi3"
@@ -62,6 +63,15 @@ const c20TimeoutMs = 20000
 // runC20Isolated evaluates the case in a pooled child process; when the child dies the case is run
 // once more in a fresh child whose stderr is kept, to name the function that overflowed the stack.
 func runC20Isolated(c hx.Case) any {
+	if f := os.Getenv("C20_TRACE"); f != "" {
+		b, _ := json.Marshal(c)
+		if len(b) > 300 {
+			b = b[:300]
+		}
+		id := atomic.AddInt64(&c20TraceN, 1)
+		c20Trace(f, fmt.Sprintf("%s start %d %s", time.Now().Format("15:04:05.000"), id, b))
+		defer func() { c20Trace(f, fmt.Sprintf("%s done %d", time.Now().Format("15:04:05.000"), id)) }()
+	}
 	obs := hx.RunIsolated("C20", c, c20TimeoutMs)
 	if m, ok := obs.(map[string]any); ok {
 		if _, crashed := m["crash"]; crashed {
@@ -69,6 +79,19 @@ func runC20Isolated(c hx.Case) any {
 		}
 	}
 	return obs
+}
+
+var c20TraceN int64
+
+func c20Trace(f, line string) {
+	c20CensusMu.Lock()
+	defer c20CensusMu.Unlock()
+	fh, err := os.OpenFile(f, os.O_APPEND|os.O_CREATE|os.O_WRONLY, 0o644)
+	if err != nil {
+		return
+	}
+	defer fh.Close()
+	fh.WriteString(line + "\n")
 }
 
 func c20CrashSite(c hx.Case) string {
@@ -310,25 +333,63 @@ func cmpC20(c hx.Case, impl any, reply map[string]any) hx.Verdict {
 	if f := os.Getenv("C20_CENSUS"); f != "" && len(iAb) > 0 {
 		c20Census(f, c, im, reply)
 	}
-	// implementation vs model: same verdict "normal / abnormal", and when abnormal the same first stage
-	// (a crash or hang has no stage: it matches a model outcome that names crash/hang).
+	// implementation vs model: the model lists the stage groups in which it can end abnormally
+	// ("load", "validate", "post" = marshal/internalize/marshal, "crash:<function family>"); the
+	// implementation agrees when it returns normally and the model lists nothing, or when the group of
+	// its first abnormal stage is listed.
 	switch {
 	case len(iAb) == 0 && len(mAb) == 0:
 		v.IM = true
-	case len(iAb) == 0 || len(mAb) == 0:
+	case len(iAb) == 0:
 		v.IM = false
-		if v.Detail == "" {
-			v.Detail = fmt.Sprintf("model predicts abnormal end %v, implementation returned normally", mAb)
-		} else {
-			v.Detail += " (model: normal)"
-		}
+		v.Detail = fmt.Sprintf("model predicts an abnormal end in %v, implementation returned normally", mAb)
 	default:
-		v.IM = iAb[0] == mAb[0] || (c20Fatal(iAb[0]) && c20Fatal(mAb[0]))
+		g := c20Group(iAb, im)
+		for _, m := range mAb {
+			if m == g {
+				v.IM = true
+			}
+		}
 		if !v.IM {
-			v.Detail += fmt.Sprintf(" (model: %v)", mAb)
+			v.Detail += fmt.Sprintf(" (group %s; model: %v)", g, mAb)
 		}
 	}
 	return v
+}
+
+func c20Group(iAb []string, im map[string]any) string {
+	switch iAb[0] {
+	case "crash":
+		site := fmt.Sprint(im["site"])
+		switch {
+		case strings.Contains(site, "IsEmpty"):
+			return "crash:IsEmpty"
+		case strings.Contains(site, "isitJSON") || strings.Contains(site, "visitXOF"):
+			return "crash:visit"
+		case strings.Contains(site, "deref"):
+			return "crash:deref"
+		case strings.Contains(site, "alidate"):
+			return "crash:validate"
+		}
+		return "crash:" + site
+	case "hang", "panic":
+		return iAb[0]
+	}
+	// first abnormal stage in pipeline order
+	for _, st := range []string{"sniff", "load", "validate", "validate_opts", "marshal", "internalize", "marshal2"} {
+		for _, a := range iAb {
+			if a == st {
+				switch st {
+				case "sniff", "load":
+					return "load"
+				case "validate", "validate_opts":
+					return "validate"
+				}
+				return "post"
+			}
+		}
+	}
+	return iAb[0]
 }
 
 var c20CensusMu sync.Mutex
@@ -346,7 +407,6 @@ func c20Census(f string, c hx.Case, im map[string]any, reply map[string]any) {
 	fh.Write(append(b, '\n'))
 }
 
-func c20Fatal(s string) bool { return s == "crash" || s == "hang" }
 
 // ---------------------------------------------------------------- JSON tree helpers
 
